@@ -304,6 +304,12 @@ func (f *Frame) convert(x ssa.Value, from ssa.Value, to types.Type) AV {
 			if e := f.an.ctx.exprAt(x.Pos(), f.fn); e != "" {
 				what = e
 			}
+			a = f.settle(a)
+			lo, hi, _ := intRange(to)
+			if mlo, mhi := a.a.interval(); len(a.conds) == 0 && lo == 0 && isNarrow(to) && (mlo < lo || mhi > hi) && f.nonNegHere(a.a) {
+				// unsigned truncation of a non-negative value is exactly "mod 2^w"
+				return AInt{a: f.modAff(a.a, hi+1)}
+			}
 			return f.narrowResult(x, a.a, a.conds, what)
 		}
 		if isFloatType(to) {
@@ -426,6 +432,19 @@ func (f *Frame) call(x *ssa.Call) AV {
 	}
 	if r, ok := f.knownExternal(x, callee, args, key); ok {
 		return r
+	}
+	if name, ok := f.an.uninterp[callee]; ok {
+		parts := make([]string, len(args))
+		nw := map[*Root]int{}
+		for i, a := range args {
+			parts[i] = describeAV(a)
+			if s, ok := a.(ASlice); ok && s.root != nil {
+				nw[s.root] = len(s.root.writes)
+			}
+		}
+		res := f.symbolicResult(name+"("+strings.Join(parts, ",")+")", x.Type())
+		f.an.ucalls = append(f.an.ucalls, UCall{fn: callee, args: args, res: res, state: f.cur, pos: x.Pos(), frame: f, nwrite: nw})
+		return res
 	}
 	if callee.Blocks != nil && f.an.ctx.inModule(callee) && f.depth < maxDepth && !f.recursive(callee) {
 		return f.inline(x, callee, args, key)
@@ -610,10 +629,13 @@ func (f *Frame) knownExternal(x *ssa.Call, callee *ssa.Function, args []AV, key 
 		s.root.writes = append(s.root.writes, &Write{off: s.off, width: affConst(int64(n)), kind: k, n: n, val: args[2], pos: f.posStr(x.Pos()), state: f.cur, fn: f.fn})
 		return ATuple{}, true
 	}
-	if n > 4 || s.root.fresh {
-		if s.root.fresh && n <= 4 {
-			// reading back from a local buffer: opaque
+	if s.root.fresh && n <= 4 {
+		if v, ok := f.readFresh(s.root, s.off, n, be); ok {
+			return v, true
 		}
+		return f.opaqueInt(x), true
+	}
+	if n > 4 {
 		return f.opaqueInt(x), true
 	}
 	// value = Σ 256^k * byte
@@ -762,4 +784,108 @@ func collectFormSyms(f *Form, into map[*Sym]bool) {
 // bindMergedIn binds using the caller frame's helper (states are self-contained DNFs).
 func (ch *Frame) bindMergedIn(caller *Frame, merged, incoming AV, st DNF) DNF {
 	return caller.bindMerged(merged, incoming, st)
+}
+
+// readFresh reads n bytes at absolute offset abs of a buffer allocated by the analysed code,
+// resolving them through the recorded writes: exactly one write must cover the bytes and
+// every other write must be provably disjoint (under the facts in force).
+func (f *Frame) readFresh(root *Root, abs Aff, n int, be bool) (AV, bool) {
+	st := f.state()
+	if len(st) == 0 {
+		return nil, false
+	}
+	end := abs.addc(int64(n))
+	var cover *Write
+	for _, w := range root.writes {
+		wend := w.off.add(w.width)
+		if st.entails(atomLE(w.off, abs)) && st.entails(atomLE(end, wend)) {
+			if cover != nil {
+				return nil, false
+			}
+			cover = w
+			continue
+		}
+		if st.entails(atomLE(wend, abs)) || st.entails(atomLE(end, w.off)) {
+			continue
+		}
+		if w.kind == wCopy {
+			// a copy writes min(len(dst), len(src)) bytes: it may be shorter than its window
+			if src, ok := w.val.(ASlice); ok && st.entails(atomLE(w.off.add(src.ln), abs)) {
+				continue
+			}
+		}
+		return nil, false
+	}
+	if cover == nil {
+		// never written: zero (make / local arrays are zero-initialised)
+		return AInt{a: affConst(0)}, true
+	}
+	switch cover.kind {
+	case wByte:
+		if n == 1 {
+			return cover.val, true
+		}
+	case wBEn, wLEn:
+		v, ok := cover.val.(AInt)
+		if !ok {
+			return nil, false
+		}
+		val := f.useIn(v, st, "read-back")
+		rel := abs.sub(cover.off)
+		if !rel.isConst() {
+			return nil, false
+		}
+		k := int(rel.c)
+		if k == 0 && n == cover.n && (cover.kind == wBEn) == be {
+			return AInt{a: val}, true
+		}
+		// sub-bytes of the stored integer
+		var a Aff
+		for i := 0; i < n; i++ {
+			pos := k + i // byte position within the write (0 = first byte in memory)
+			var sh uint
+			if cover.kind == wBEn {
+				sh = uint(8 * (cover.n - 1 - pos))
+			} else {
+				sh = uint(8 * pos)
+			}
+			var b Aff
+			if sh == 0 {
+				b = f.modAff(val, 256)
+			} else {
+				b = f.modAff(affSym(f.divSym(val, 1<<sh)), 256)
+			}
+			osh := uint(8 * (n - 1 - i))
+			if !be {
+				osh = uint(8 * i)
+			}
+			a = a.add(b.scale(1 << osh))
+		}
+		return AInt{a: a}, true
+	case wCopy:
+		src, ok := cover.val.(ASlice)
+		if !ok || src.isNil {
+			return nil, false
+		}
+		rel := abs.sub(cover.off)
+		// bytes must lie within the copied length min(dst, src)
+		if !st.entails(atomLE(rel.addc(int64(n)), src.ln)) {
+			return nil, false
+		}
+		sabs := src.off.add(rel)
+		if src.root.fresh {
+			return f.readFresh(src.root, sabs, n, be)
+		}
+		var a Aff
+		for i := 0; i < n; i++ {
+			b := f.an.u.sym(fmt.Sprintf("%s[%s]", src.root.key, sabs.addc(int64(i)).String()), 0, 255)
+			sh := uint(8 * (n - 1 - i))
+			if !be {
+				sh = uint(8 * i)
+			}
+			a = a.add(affSym(b).scale(1 << sh))
+		}
+		return AInt{a: a}, true
+	}
+	return nil, false
 }
